@@ -140,7 +140,7 @@ def sched_kwargs(cfg):
 # -----------------------------------------------------------------------------
 
 RECORD_CLASSES = ["white", "walk", "sine+noise", "offset1e6", "ramp", "impulses", "tiny", "huge",
-                  "ar1", "offset3e10"]
+                  "ar1", "offset3e10", "int-zero-sum"]
 
 
 def record(rng, N, klass):
@@ -162,6 +162,12 @@ def record(rng, N, klass):
         x = np.zeros(N)
         k = max(1, N // 50)
         x[rng.integers(0, N, size=k)] = rng.standard_normal(k) * 10
+    elif klass == "int-zero-sum":
+        # integer-valued counts whose sum - hence whose floating-point record mean - is exactly 0,
+        # while the means of its segments are not
+        x = rng.integers(-50, 51, size=N).astype(np.float64)
+        x += np.round(3 * np.sin(2 * np.pi * np.arange(N) / max(N, 1)))     # slow integer drift
+        x[-1] -= float(np.sum(x))
     elif klass == "zeros":
         x = np.zeros(N)
     elif klass == "const":
